@@ -5,6 +5,7 @@ The same kernel model serves `distance`, `warping_paths` (Python) and the C kern
 -/
 import Dtaiverif.Proofs.Dist
 import Dtaiverif.Proofs.CostInst
+import Dtaiverif.Props.PyBand
 
 namespace Dtai
 variable {α : Type} [LinearOrderedAddCommMonoidWithTop α]
